@@ -127,6 +127,8 @@ let rec gx (x : sx) : g =
   | L [A "NestedIn"; a] -> NestedIn (gx a)
   | L [A "ExtWrap"; a] -> ExtWrap (gx a)
   | L [A "Skip"; n] -> Skip (natx n)
+  | L [A "Lazy"; a] -> ThenIgnore (gx a, RepUnit (IRep (Any, O, None)))      (* Syntax.Lazy: lazy() = then_ignore(any().repeated()) *)
+  | L [A "WithState"; k; a] -> WithState (n_of_int (num k), gx a)
   | L [A "NestedDelims"; s; e; L others] ->
       nested_delims (n_of_int (num s)) (n_of_int (num e))
         (List.map (function L [a; b] -> (n_of_int (num a), n_of_int (num b)) | _ -> failwith "NestedDelims pair") others)
@@ -272,7 +274,7 @@ let run_line (line : string) =
           | None -> Buffer.add_string buf "OOF")
        else
        let q = match !tree_sub with
-         | None -> quirks
+         | None -> set_nested quirks (Some (fun _ -> None))      (* the extended configuration (with_state), no group tokens *)
          | Some sub -> nest_q (nat_of_int 6) quirks k q_mapped_empty (fun t -> match sub t with Some (a, b, c) -> Some ((a, b), c) | None -> None) fuel in
        (match run_top q k tk spn fuel m g with
         | TRes (Some v, errs) ->
